@@ -80,7 +80,11 @@ class C02Monitor(C01Monitor):
                 if before[pi] is None:
                     continue
                 for bi, ip in enumerate(port.pins):
-                    if i.pins[ip].wire is not before[pi][bi]:
+                    op_ = i.pins.get(ip)
+                    if op_ is None or bi >= len(before[pi]):
+                        ctx.violation("I9-repoint-lost-pin", "after reference=(%s) pin (%d,%d) has no outer pin; log=%s" % (op.strat, pi, bi, eng.log[-8:]))
+                        return True
+                    if op_.wire is not before[pi][bi]:
                         ctx.violation("I9-repoint-moved-connection", "after reference=(%s) pin (%d,%d) is on another wire; log=%s" % (op.strat, pi, bi, eng.log[-8:]))
                         return True
         return super().post(eng, op, outcome, exc, result)
